@@ -28,7 +28,7 @@ Lemma idle_keepalive_lt_timeout_refuted_proof :
     /\ tvalid e P (tnet0 cli srv t0) hs
     /\ t_swept (trun e P (tnet0 cli srv t0) hs) = true.
 Proof.
-  exists env1500, {| tp_tau := 1800; tp_d := 0; tp_T := 76800 |}, 7,
+  exists env1500, {| tp_tau := 1800; tp_d := 0; tp_life := 0; tp_T := 76800 |}, 7,
          (mk_ep false 1536000 75000), (mk_ep true 1536000 1536), 1536000, (refute_hist 1536000).
   split; [apply establishedb_ok; vm_compute; reflexivity|].
   split; [vm_compute; reflexivity|]. split; [reflexivity|]. split; [vm_compute; reflexivity|].
@@ -50,7 +50,7 @@ Lemma idle_pair_client_bound_tight_proof :
     /\ tvalid e P (tnet0 cli srv t0) hs
     /\ c_status (t_cli (trun e P (tnet0 cli srv t0) hs)) = DROPPED.
 Proof.
-  exists env1500, {| tp_tau := 1800; tp_d := 0; tp_T := 76800 |}, 7,
+  exists env1500, {| tp_tau := 1800; tp_d := 0; tp_life := 0; tp_T := 76800 |}, 7,
          (mk_ep false 1536000 1536), (mk_ep true 1536000 75001), 1536000, (tight_hist 1536000).
   split; [apply establishedb_ok; vm_compute; reflexivity|].
   split; [reflexivity|]. split; [vm_compute; reflexivity|]. split; [vm_compute; reflexivity|].
@@ -69,7 +69,7 @@ Definition ex_hs1 := nrun env1500 net0 [NA (EClientHello ex_t0 []); NA (EClientT
 Definition ex_hs2 := nrun env1500 ex_hs1 [NB (ERecv (ex_t0 + 300) (ex_first (wAB ex_hs1)) [ex_orc None]); NB (EServerTick (ex_t0 + 600))].
 Definition ex_hs3 := nrun env1500 ex_hs2 [NA (EClientTick (ex_t0 + 600) (RxDgram (ex_first (wBA ex_hs2)) [ex_orc None]))].
 Definition ex_hs4 := nrun env1500 ex_hs3 [NB (ERecv (ex_t0 + 900) (ex_first (skipn 1 (wAB ex_hs3))) [ex_orc (Some 99)])].
-Definition ex_P : tparams := {| tp_tau := 300; tp_d := 900; tp_T := 5 * TICKS |}.
+Definition ex_P : tparams := {| tp_tau := 300; tp_d := 900; tp_life := 2700; tp_T := 5 * TICKS |}.
 Definition ex_junk : dgram :=
   let h := {| h_to_server := false; h_ctime := 100; h_seq := 9; h_ack := 0; h_type := APP; h_len := 3; h_count := 1; h_ackbits := 0 |} in
   {| d_hdr := h; d_body := Sealed 8 h [] |}.
@@ -79,7 +79,9 @@ Definition ex_hist : list tev :=
   ++ [TClient (ex_t0 + 2700) (SJunk ex_junk []); TSrvRecv (ex_t0 + 2700) (SJunk ex_junk []); TSrvSweep (ex_t0 + 2700)]
   ++ [TClient (ex_t0 + 3000) (SPeer 2); TSrvRecv (ex_t0 + 3000) (SPeer 3); TSrvSweep (ex_t0 + 3000)]
   ++ [TClient (ex_t0 + 3300) (SPeer 2); TSrvRecv (ex_t0 + 3300) (SPeer 3); TSrvSweep (ex_t0 + 3300)]
-  ++ ex_plain 3600 ++ ex_plain 3900 ++ ex_plain 4200 ++ ex_plain 4500 ++ ex_plain 4800
+  ++ ex_plain 3600 ++ ex_plain 3900
+  ++ [TClient (ex_t0 + 4200) (SPeer 2); TSrvRecv (ex_t0 + 4200) (SPeer 3); TSrvSweep (ex_t0 + 4200)]   (* late copies *)
+  ++ ex_plain 4500 ++ ex_plain 4800
   ++ [TClient (ex_t0 + 5100) (SPeer 3); TSrvRecv (ex_t0 + 5100) (SPeer 4); TSrvSweep (ex_t0 + 5100)]
   ++ ex_plain 5400 ++ ex_plain 5700
   ++ [TClient (ex_t0 + 6000) SNone; TSrvRecv (ex_t0 + 6000) (SPeer 5); TSrvSweep (ex_t0 + 6000)]
